@@ -67,6 +67,17 @@ Theorem C27_collection_item : forall s, valid s = true -> forall cur real, famil
 Proof. exact collection_item_refined. Qed.
 Print Assumptions C27_collection_item.
 
+(* a reference of an unpickled object that was pickled by primary key only stays a placeholder and comes out with its creation class (fix 3acf097) *)
+Theorem C27_unpickled_reference : forall s, valid s = true -> forall cur real, family s cur real -> unpickled_ref_class s cur real = real.
+Proof. exact unpickled_ref_refined. Qed.
+Print Assumptions C27_unpickled_reference.
+(* two references typed c1 and c2 (any two classes at or above the stored class, sibling branches of a diamond included) to one object, loaded
+   in one session: no class-change error, and the placeholder keeps a class at or above the stored one (fix cb35764) *)
+Theorem C27_two_references : forall s, valid s = true -> forall c1 c2 real, family s c1 real -> family s c2 real ->
+  exists c, meet_again s c1 true c2 = Some c /\ family s c real.
+Proof. exact meet_again_ok. Qed.
+Print Assumptions C27_two_references.
+
 (* reading a reference attribute (Attribute.get) hands out the object with its creation class, whether the value was already known or
    had to be fetched with attr.load because the owner itself was an unloaded placeholder (chains a.b.c through placeholders); the flag
    is read from the source of Attribute.get on every run *)
